@@ -121,7 +121,7 @@ def counter_steps(body, place):
     return out
 
 
-def site_guard(body, call_bb, callee_is_self, call_term):
+def site_guard(body, call_bb, callee_is_self, call_term, facts=None):
     """Return a description of the guard protecting the call in block call_bb, or None."""
     succ = body.succ()
     derived_locals = set()
@@ -195,6 +195,52 @@ def site_guard(body, call_bb, callee_is_self, call_term):
                 "derived": "`%s` = an integer parameter + constant" % name,
                 "deref": "`%s%s` through &mut `%s`" % ("(*%s)" % name, "".join("." + f for f in fields), name)}[kind]
         return {"guard_line": g["line"], "counter": desc, "bound": g["const"], "cmp": g["op"], "step": steps[0][2]}
+    # (iv) the count-and-test lives in a helper (`self.enter()?;`): a call, dominating the recursive call, of a function whose body
+    # steps a field of its `&mut self` and compares it with a constant, failing on one edge; the helper's error leaves this function
+    # (`?`), the same `self` travels with the recursion, and the count is not stepped back between the helper and the call
+    if facts is not None:
+        from . import scm as _scm
+        dom = body.dom()
+        for hb in dom[call_bb]:
+            ht = body.blocks[hb]["t"]
+            if hb == call_bb or ht["k"] != "call" or not ht["args"]:
+                continue
+            hname = ht.get("callee") or ""
+            if not facts.has_body(hname):
+                continue
+            a0 = ht["args"][0]
+            if a0.get("k") not in ("copy", "move") or body.root_of(a0["pl"]["l"])[0] != 1:
+                continue
+            hbdy = facts.body(hname)
+            found = None
+            for g in find_guards(hbdy):
+                if g["place"][0] != "deref" or g["place"][1] != 1:
+                    continue
+                steps = [st for st in counter_steps(hbdy, g["place"]) if str(st[2]).startswith("Add") and hbdy.dominates((st[0], st[1]), (g["bb"], 10 ** 9))]
+                if not steps:
+                    continue
+                hs = hbdy.succ()
+                okb = {bi for bi, i, st in hbdy.iter_stmts() if st["k"] == "assign" and st["pl"]["l"] == 0 and not st["pl"]["p"]
+                       and st["rv"]["k"] == "agg" and str(st["rv"].get("variant")) in ("Ok", "Some")}
+                failing = [e for e in hs[g["bb"]] if not (hbdy.reach_from(e) & okb)]
+                if failing and len(failing) < len(hs[g["bb"]]):
+                    found = g
+                    break
+            if not found:
+                continue
+            brk = _scm.none_edge_targets(body, ht["dest"]["l"], ht["t"]) if ht.get("t") is not None else None
+            if not brk or any(call_bb in body.reach_from(e) for e in brk):
+                continue
+            fields = found["place"][2]
+            place_here = ("deref", 1, fields)
+            undone = any(str(oop).startswith("Sub") and ob in body.reach_from(hb) and call_bb in body.reach_from(ob)
+                         for ob, oi, oop in counter_steps(body, place_here))
+            if undone:
+                continue
+            if not any(a.get("k") in ("copy", "move") and body.root_of(a["pl"]["l"])[0] == 1 for a in call_term["args"]):
+                continue
+            return {"guard_line": ht.get("line"), "counter": "`(*self)%s` counted and tested in %s" % ("".join("." + f for f in fields), hname.split("::")[-1]),
+                    "bound": found["const"], "cmp": found["op"], "step": "helper"}
     return None
 
 
@@ -235,7 +281,7 @@ def check(facts):
                         notes.append("non-call reference at line %s" % line)
                         continue
                     nsites += 1
-                    g = site_guard(body, bb, caller == callee, t)
+                    g = site_guard(body, bb, caller == callee, t, facts)
                     if g:
                         notes.append("line %s guarded by %s %s %s (line %s)" % (line, g["counter"], g["cmp"], g["bound"], g["guard_line"]))
                     else:
